@@ -50,6 +50,8 @@ def run(rep):
             rep.violation("emitted code disagrees with the specification (%s; not listed as a known finding) on %s" % (k, op.strip()[:300]),
                           {"corpus_seed": rep.seed, "op": op.strip(), "finding_class": k}, True)
 
+    from vlib import probes
+    probes.run(rep, "C03")
 
 def replay(rep, path):
     import json
